@@ -397,7 +397,7 @@ def cellsL : List Ent → List Nat
   | e :: es => cellsE e ++ cellsL es
 end
 
-/-- `c09.run <m|l|mc|lc> <ncells> <cell…> <ntok> <tok…> <step…>` → resolved tree(s) in post-order -/
+/-- `c09.run <m|l|mc|lc|mo|lo> <ncells> <cell…> <ntok> <tok…> <step…>` → resolved tree(s) in post-order -/
 def handleRun (args : List String) : Option String :=
   match args with
   | mode :: nc :: rest => do
@@ -413,12 +413,20 @@ def handleRun (args : List String) : Option String :=
       if (cellsE e).any (fun i => i ≥ h.length) then none
       if steps.any (fun s => !s.1.ok) then some "degenerate" else
       let (viaMethod, cp) ← (match mode with
-        | "m" => some (true, false) | "l" => some (false, false)
-        | "mc" => some (true, true) | "lc" => some (false, true) | _ => none)
-      if cp then
+        | "m" => some (true, 0) | "l" => some (false, 0)
+        | "mc" => some (true, 1) | "lc" => some (false, 1)
+        | "mo" => some (true, 2) | "lo" => some (false, 2) | _ => none)
+      if cp == 1 then
+        -- copy, then transform the copy: the original must stay
         let c := copy e h
         match runSteps viaMethod steps c with
         | some (e', h') => some ("ok " ++ " ".intercalate (showE h' e ++ ["|"] ++ showE h' e'))
+        | none => some "needs-center"
+      else if cp == 2 then
+        -- copy, then transform the ORIGINAL: the copy must stay
+        let c := copy e h
+        match runSteps viaMethod steps (e, c.2) with
+        | some (e', h') => some ("ok " ++ " ".intercalate (showE h' e' ++ ["|"] ++ showE h' c.1))
         | none => some "needs-center"
       else
         match runSteps viaMethod steps (e, h) with
